@@ -430,7 +430,6 @@ def simplicial_deviant():
         "H.remove_simplex_ids_from([0, 9])",
         "H.remove_edge(9)",
         "H.add_node_to_edge(0, 1)",
-        "H.remove_node_from_edge(0, 1)",
     ]
 
 
